@@ -24,6 +24,7 @@ TOTAL_ACCESSORS = {
     "core::borrow::Borrow::borrow", "core::iter::traits::iterator::Iterator::rev", "core::iter::traits::iterator::Iterator::enumerate",
     "core::iter::traits::iterator::Iterator::by_ref", "core::iter::traits::iterator::Iterator::copied",
     "core::iter::traits::iterator::Iterator::cloned", "core::iter::traits::iterator::Iterator::chain",
+    "core::iter::traits::iterator::Iterator::for_each", "core::option::Option::iter", "core::result::Result::iter",
     "alloc::vec::Vec::iter", "alloc::vec::Vec::as_slice", "core::array::<impl [T; N]>::as_slice", "core::array::<impl [T; N]>::iter",
     "core::array::<impl [T; N]>::each_ref", "alloc::collections::vec_deque::VecDeque::iter",
     "alloc::collections::linked_list::LinkedList::iter", "alloc::collections::btree::map::BTreeMap::iter",
@@ -142,6 +143,9 @@ def trace_sites(prog, body, root=1, depth=0):
         if not t or t["k"] != "call" or t["f"].get("indirect"):
             continue
         dn = canon(norm(t["f"]["def"]))
+        if dn in CLOSURE_CONSUMERS:
+            sites += _closure_sites(prog, body, defs, bi, t, root, depth, dn)
+            continue
         if dn not in TRACE_FNS:
             sites += _helper_sites(prog, body, defs, bi, t, root, depth)
             continue
@@ -163,6 +167,56 @@ def trace_sites(prog, body, root=1, depth=0):
         ch = chains_of(prog, body, defs, val)
         sites.append(Site(bi, kind, ty_s, ch, None, t["l"], t))
     return sites
+
+
+# iterator consumers that call their closure on every element the iterator yields (total, like a `for` loop)
+CLOSURE_CONSUMERS = {"core::iter::traits::iterator::Iterator::for_each": "core::iter::traits::iterator::Iterator::for_each"}
+
+
+def _closure_of(body, defs, op, depth=0):
+    if depth > 6 or op.get("k") not in ("copy", "move") or op["p"]["p"]:
+        return None
+    for kind, d, _bi in defs.get(op["p"]["l"], []):
+        if kind == "rv" and d["k"] == "agg" and d["ak"]["k"] == "closure":
+            return d["ak"]["def"]
+        if kind == "rv" and d["k"] in ("use", "cast"):
+            c = _closure_of(body, defs, d["o"], depth + 1)
+            if c:
+                return c
+    return None
+
+
+def _closure_sites(prog, body, defs, bi, t, root, depth, consumer):
+    """`iter.for_each(|x| cc.trace(x))`: the closure's trace calls, with its element parameter standing for every
+    element the (self-derived) iterator yields."""
+    if depth > 3 or len(t["args"]) < 2:
+        return []
+    ch = chains_of(prog, body, defs, t["args"][0])
+    if not any(rt == root for (rt, _, _) in ch):
+        return []
+    cdef = _closure_of(body, defs, t["args"][1])
+    keys = prog.seed_n.get(norm(cdef)) if cdef else None
+    if not keys:
+        return [Site(bi, "generic", None, {("other", (consumer + "(<unknown closure>)",), ())}, None, t["l"], t)]
+    cbody = prog.bodies[keys[0]]
+    k = 2           # closure bodies: local 1 is the environment, local 2 the element
+    csites = trace_sites(prog, cbody, root=k, depth=depth + 1)
+    cprobs = loop_problems(prog, cbody, csites) + conditional_problems(prog, cbody, csites, root=k)
+    out = []
+    for cs in csites:
+        comp = set()
+        for (r0, acc0, fl0) in ch:
+            for (r1, acc1, fl1) in cs.chain:
+                if r1 == k:
+                    comp.add((r0, acc0 + (consumer,) + acc1, fl0 + fl1))
+                elif r1 == "const":
+                    comp.add(("const", (), ()))
+                else:
+                    comp.add(("other", acc1, fl1))
+        out.append(Site(bi, cs.kind, cs.ty_s, comp, None, t["l"], t, via=norm(cdef),
+                        probs=["in the closure passed to for_each: %s" % p_ for p_ in (cprobs + cs.probs)]))
+        cprobs = []
+    return out
 
 
 def _helper_sites(prog, body, defs, bi, t, root, depth):
